@@ -12,6 +12,14 @@ Protocol (one case = a configuration line followed by votes / strategy changes):
                                             exists, attribute assignment afterwards); `raise`: the callback raises
   attr tracking <0|1>                       `enable_reliability_tracking` (constructor argument / attribute)
   obj <k>                                   switch to quorum object k: several objects alive, each with its own state
+Numbers of unusual but legal TYPE: every threshold (`cfg`, `cfg emergency`, `setstrat`, `attr threshold`), `min_voters`
+  and weight may carry a tag `<value>@<carrier>`: i int, b bool, F fractions.Fraction, D decimal.Decimal, fs a float
+  subclass, is an int subclass (no tag: float).  The model ignores the tag: a number is its value, whatever carries it.
+Answers that cannot be turned into a ballot (a failed voter: one zero-confidence ABSTAIN): conf tokens
+  unstr (payload whose str()/repr() raise) | unbool (payload whose truth value raises) | unlen (its len() raises) |
+  unrepr (a dict WITH a valid confidence holding a value whose repr() raises) | unkey (a dict whose key lookup raises);
+  the X voters raise from `express`, or return None / a string / an object without `action_type` / a protein whose
+  `payload` attribute raises, in turn.
 Observation of a vote: reached decision permit block abstain total thresholdTag [type:weight:conf,...] strategy cb=<which>
   (a raising callback: `raise:CallbackError <which> <the result the callback was handed>`); `run_vote` is entered in
   turn as run_vote(p), run_vote(p, {...}), run_vote(prompt=p, context=None)
@@ -28,6 +36,7 @@ import contextlib
 import io
 import itertools
 import math
+from decimal import Decimal
 from fractions import Fraction
 
 from ..core import LEAN, REPO, Prop, Violation, hexs, import_repo, show_bool, show_rat, unhexs, write_if_changed
@@ -57,11 +66,143 @@ DOC_PRIOR = Fraction(1, 2)             # "Start with uniform prior"
 DOC_GAIN = Fraction(2, 5)              # likelihood 0.5-0.9
 
 
-SPECIAL_CONF = ("none", "bad", "inf", "-inf", "nan")
+# answers that fail while they are turned into a ballot, late in the per-voter step (rendering the payload)
+FAULT_CONF = ("unstr", "unbool", "unlen", "unrepr", "unkey")
+FAILED_CONF = ("bad", "nan") + FAULT_CONF              # the voter is a failed voter: one zero-confidence ABSTAIN
+SPECIAL_CONF = ("none", "bad", "inf", "-inf", "nan") + FAULT_CONF
+
+
+class FloatSub(float):
+    """a float subclass (what numpy.float64 is)"""
+
+
+class IntSub(int):
+    """an int subclass (what an IntEnum member or a numpy integer is)"""
+
+
+CARRIER_TAGS = ("i", "b", "F", "D", "fs", "is")
+
+
+def _terminating(x):
+    d = x.denominator
+    for p in (2, 5):
+        while d % p == 0:
+            d //= p
+    return d == 1
+
+
+def carrier_ok(x, tag):
+    """can the value `x` be carried exactly by the type `tag` stands for?"""
+    if tag in ("i", "is"):
+        return x.denominator == 1
+    if tag == "b":
+        return x in (0, 1)
+    if tag == "D":
+        return _terminating(x)
+    return tag in ("", "F", "fs")
+
+
+class Num(Fraction):
+    """a protocol number `<value>[@<carrier>]`: the value (all arithmetic and comparisons are the Fraction's) plus the
+    Python type that carries it into the real code"""
+
+    def __new__(cls, tok, tag=None):
+        if tag is None:
+            tok, _, tag = str(tok).partition("@")
+        self = super().__new__(cls, tok)
+        if tag not in ("",) + CARRIER_TAGS:
+            raise ValueError(tag)
+        self.tag = tag
+        return self
+
+    def token(self):
+        return show_rat(self) + ("@" + self.tag if self.tag else "")
+
+
+def carry(x):
+    """the Python object handed to the real code for a protocol number (no tag: a float)"""
+    tag = getattr(x, "tag", "")
+    v = Fraction(x)
+    if not carrier_ok(v, tag):
+        tag = "F"                                          # a value the carrier cannot hold: carried exactly
+    if tag == "i":
+        return int(v)
+    if tag == "is":
+        return IntSub(int(v))
+    if tag == "b":
+        return bool(v)
+    if tag == "F":
+        return Fraction(v)
+    if tag == "D":
+        return Decimal(v.numerator) / Decimal(v.denominator)
+    if tag == "fs":
+        return FloatSub(float(v))
+    return float(v)
+
+
+def carry_count(tok):
+    """`min_voters` from a protocol token: an int unless a carrier is named"""
+    x = Num(tok)
+    if x.denominator != 1 or x < 0:
+        raise ValueError(tok)
+    return carry(x) if x.tag else int(x)
+
+
+def exact_carrier(x):
+    """is the number handed over as an exact non-float (comparisons of a float ratio with it are exact)?"""
+    return getattr(x, "tag", "") in ("F", "D")
+
+
+def dyadic(x):
+    d = Fraction(x).denominator
+    return d & (d - 1) == 0
 
 
 def frac(s):
     return Fraction(s)
+
+
+class Unprintable:
+    """a payload value that cannot be rendered"""
+
+    def __str__(self):
+        raise ValueError("payload cannot be rendered")
+    __repr__ = __str__
+
+
+class NoTruth:
+    """a payload without a truth value"""
+
+    def __bool__(self):
+        raise RuntimeError("payload has no truth value")
+
+
+class NoLen:
+    """a container-like payload whose length cannot be taken (bool() falls back to len())"""
+
+    def __len__(self):
+        raise OverflowError("payload has no length")
+
+
+class NoLookup(dict):
+    """a mapping whose key lookup fails"""
+
+    def __contains__(self, key):
+        raise KeyError(key)
+
+
+class NotAProtein:
+    """an answer without `action_type`"""
+    payload = None
+
+
+class BrokenProtein:
+    """an answer whose payload cannot be read"""
+    action_type = "PERMIT"
+
+    @property
+    def payload(self):
+        raise RuntimeError("payload unavailable")
 
 
 def conf_value(c):
@@ -80,7 +221,7 @@ def parse_voter(tok):
         raise ValueError(k)
     if c not in SPECIAL_CONF:
         Fraction(c)
-    return (k, None if w == "_" else Fraction(w), None if r == "_" else Fraction(r), c)
+    return (k, None if w == "_" else Num(w), None if r == "_" else Num(r), c)
 
 
 def show_w(x):
@@ -100,8 +241,8 @@ def parse_ballot(line):
 def cast(voter):
     """documented vote collection: (type, confidence, weight) of the vote a voter casts"""
     k, w, r, c = voter
-    if k == "X" or c in ("bad", "nan"):              # a voter that fails, or reports something that is not a number
-        return ("abstain", Fraction(0), w)
+    if k == "X" or c in FAILED_CONF:                 # a voter that fails, reports something that is not a number, or
+        return ("abstain", Fraction(0), w)             # whose answer cannot be turned into a ballot
     conf = conf_value(c)
     t = {"P": "permit", "E": "permit", "B": "block", "D": "defer", "U": "abstain"}[k]
     return (t, conf, w * r)
@@ -196,7 +337,10 @@ class Spec:
                 return False
             return abs(st[0] - st[1]) < NEAR
         if st is not None:
-            return 0 < abs(st[0] - st[1]) < NEAR
+            d = abs(st[0] - st[1])
+            if d == 0 and exact_carrier(self.custom) and not dyadic(st[1]):
+                return True    # a Fraction / Decimal threshold is compared EXACTLY with the rounded float ratio
+            return 0 < d < NEAR
         if self.strategy == "threshold":
             t = self.eff_threshold(None)
             if t is not None and 0 < t < 1 and (t.denominator & (t.denominator - 1)):
@@ -247,10 +391,30 @@ class Stub:
         from operon_ai.core.types import ActionProtein
         self.calls += 1
         k, c, i = self.script.pop(0) if self.script else ("P", "none", 0)
-        if k == "X":
-            raise RuntimeError("voter failed")
+        if k == "X":                                      # a voter that fails before there is an answer to read
+            mode = i % 6
+            if mode == 1:
+                return None
+            if mode == 2:
+                return "PERMIT"
+            if mode == 3:
+                return NotAProtein()
+            if mode == 4:
+                return BrokenProtein()
+            raise (RuntimeError if mode == 0 else KeyError)("voter failed")
         action = ACTION.get(k) or OTHER_ACTIONS[i % len(OTHER_ACTIONS)]
-        if c == "none":
+        if c == "unstr":                                  # answers that fail late: while the payload is rendered
+            payload = Unprintable()
+        elif c == "unbool":
+            payload = NoTruth()
+        elif c == "unlen":
+            payload = NoLen()
+        elif c == "unrepr":                               # a legal payload dict, confidence included, with such a value
+            payload = [{"confidence": 0.75, "detail": Unprintable()}, {"detail": Unprintable()},
+                       {"confidence": "0.5", Unprintable(): 1}, ["note", Unprintable()]][i % 4]
+        elif c == "unkey":
+            payload = NoLookup(confidence=0.5)
+        elif c == "none":
             payload = [None, "Action is safe.", {}, {"note": 1}, 0.25, ["confidence", 1], {"Confidence": 0.9}][i % 7]
         elif c == "bad":
             payload = {"confidence": ["high", None, "", [1], "1,0", {}][i % 6]}
@@ -262,7 +426,9 @@ class Stub:
             payload = {"confidence": [float("nan"), "nan", "NaN"][i % 3]}
         else:
             f = float(Fraction(c))
-            forms = [f, str(f), f, f" {f} "]
+            forms = [f, str(f), f, f" {f} ", Fraction(c), FloatSub(f)]
+            if _terminating(Fraction(c)):
+                forms.append(Decimal(str(f)))
             if f == int(f):
                 forms.append(int(f))                    # an int (and True for 1) is a number too
                 if f == 1.0:
@@ -322,7 +488,8 @@ class C06(Prop):
     # --- case construction -----------------------------------------------------------------------------------
     @staticmethod
     def vote_line(ballot):
-        return " ".join(["vote"] + [f"{k}:{'_' if w is None else w}:{'_' if r is None else r}:{c}" for (k, w, r, c) in ballot])
+        tk = lambda x: "_" if x is None else x.token() if isinstance(x, Num) else str(x)
+        return " ".join(["vote"] + [f"{k}:{tk(w)}:{tk(r)}:{c}" for (k, w, r, c) in ballot])
 
     def _states(self, lines):
         """configuration in force at every line: (strategy, custom, minVoters) or None"""
@@ -336,23 +503,29 @@ class C06(Prop):
                 cur = int(t[1])
                 st = objs.get(cur, ("majority", None, 1, False))
             elif t[0] == "cfg" and len(t) == 4:
-                cu = None if t[2] == "none" else Fraction(t[2])
-                if t[1] == "emergency":           # min_voters: what EmergencyQuorum's constructor configures (extracted)
-                    st = ("threshold", Fraction(3, 10) if cu is None else cu, self.em_min_voters,
-                          "default" if cu is None else "custom")
-                elif t[1] in STRATS:
-                    st = (t[1], cu, int(t[3]), False)
+                try:
+                    cu = None if t[2] == "none" else Num(t[2])
+                    if t[1] == "emergency":       # min_voters: what EmergencyQuorum's constructor configures (extracted)
+                        st = ("threshold", Fraction(3, 10) if cu is None else cu, self.em_min_voters,
+                              "default" if cu is None else "custom")
+                    elif t[1] in STRATS:
+                        st = (t[1], cu, int(Num(t[3])), False)
+                except (ValueError, ZeroDivisionError):
+                    pass
             elif t[0] == "setstrat" and len(t) == 3 and t[1] in STRATS and st:
-                st = (t[1], None if t[2] == "none" else Fraction(t[2]), st[2], "changed" if st[3] else False)
+                try:
+                    st = (t[1], None if t[2] == "none" else Num(t[2]), st[2], "changed" if st[3] else False)
+                except (ValueError, ZeroDivisionError):
+                    pass
             elif t[0] == "attr" and len(t) == 3:
                 em = "changed" if st[3] else False
                 try:
                     if t[1] == "strategy" and t[2] in STRATS:
                         st = (t[2], st[1], st[2], em)
                     elif t[1] == "threshold":
-                        st = (st[0], None if t[2] == "none" else Fraction(t[2]), st[2], em)
+                        st = (st[0], None if t[2] == "none" else Num(t[2]), st[2], em)
                     elif t[1] == "minvoters":
-                        st = (st[0], st[1], int(t[2]), em)
+                        st = (st[0], st[1], int(Num(t[2])), em)
                 except (ValueError, ZeroDivisionError):
                     pass
             out.append(st)
@@ -400,9 +573,23 @@ class C06(Prop):
             c = rng.choice(CF) if rng.random() < 0.85 else rng.choice(["1", "1/2"])
         if rng.random() < 0.06:                           # reports that are not a 0-1 number
             c = rng.choice(["inf", "inf", "nan", "2", "3/2", "-1/2", "-inf", "5"])
-        return (k, rng.choice(W), rng.choice(REL), c)
+        if rng.random() < 0.05:                           # an answer that fails late, while it is turned into a ballot
+            c = rng.choice(FAULT_CONF)
+        return (k, self._carried(rng, rng.choice(W), 0.08, weight=True), rng.choice(REL), c)
+
+    @staticmethod
+    def _carried(rng, tok, p=0.3, weight=False):
+        """the same number, carried by another legal numeric type (`weight * reliability` needs a type that multiplies
+        with a float: no Decimal there)"""
+        if tok in ("none", "_") or "@" in tok or rng.random() >= p:
+            return tok
+        tags = [t for t in CARRIER_TAGS if carrier_ok(Fraction(tok), t) and not (weight and t == "D")]
+        return f"{tok}@{rng.choice(tags)}"
 
     def _rand_custom(self, rng, strat):
+        return self._carried(rng, self._rand_custom_value(rng, strat))
+
+    def _rand_custom_value(self, rng, strat):
         if strat == "threshold":
             return rng.choice(["none", "none", "0", "1", "2", "3", "4", "5", "8", "3/10", "1/2", "1/4", "3/4", "9/10",
                                "1/10", "5/2", "3/2", "7"])
@@ -422,7 +609,7 @@ class C06(Prop):
                 continue
             strat = rng.choice(STRATS + ["emergency", "bayesian", "threshold", "weighted", "confidence"])
             if strat == "emergency":
-                lines = [f"cfg emergency {rng.choice(['none', 'none', '3/10', '1/2', '1/4', '1', '2', '0'])} 1"]
+                lines = [f"cfg emergency {self._carried(rng, rng.choice(['none', 'none', '3/10', '1/2', '1/4', '1', '2', '0', '2/3']), 0.4)} 1"]
                 strat = "threshold"
             else:
                 lines = [f"cfg {strat} {self._rand_custom(rng, strat)} {rng.choice([1, 1, 1, 2, 2, 3, 4, 0, 5])}"]
@@ -454,7 +641,7 @@ class C06(Prop):
                     if rng.random() < 0.6:
                         lines.append(f"attr threshold {self._rand_custom(rng, s2)}")
                     if rng.random() < 0.3:
-                        lines.append(f"attr minvoters {rng.choice([0, 1, 2, 3])}")
+                        lines.append(f"attr minvoters {self._carried(rng, str(rng.choice([0, 1, 2, 3])), 0.3)}")
                     lines.append(self.vote_line(ballot))
             if rng.random() < 0.25:                       # the un-stubbed colony (real BioAgent voters)
                 lines.append(f"realvote {rng.choice(['safe', 'safe', 'danger', 'inject'])} "
@@ -487,7 +674,7 @@ class C06(Prop):
             x = rng.random()
             if x < 0.22:
                 nm = rng.choice(self.NAMES + names[:2])
-                lines.append(f"add {hexs(nm)} {rng.choice(W)}")
+                lines.append(f"add {hexs(nm)} {self._carried(rng, rng.choice(W), 0.15, weight=True)}")
                 names.append(nm)
             elif x < 0.27 and names:
                 i = rng.randrange(len(names))
@@ -500,7 +687,7 @@ class C06(Prop):
                     names.remove(nm)
             elif x < 0.43:
                 nm = rng.choice(names + ["nobody"]) if names else "nobody"
-                lines.append(f"setw {hexs(nm)} {rng.choice(W)}")
+                lines.append(f"setw {hexs(nm)} {self._carried(rng, rng.choice(W), 0.15, weight=True)}")
             elif x < 0.47:
                 s2 = rng.choice(strats)
                 lines.append(f"setstrat {s2} {self._rand_custom(rng, s2)}")
@@ -509,9 +696,9 @@ class C06(Prop):
                 if y < 0.5:
                     lines.append(f"attr strategy {rng.choice(strats)}")
                 elif y < 0.75:
-                    lines.append(f"attr threshold {rng.choice(['none', '0', '1/4', '1/2', '3/4', '1', '2', '3', '3/10'])}")
+                    lines.append(f"attr threshold {self._carried(rng, rng.choice(['none', '0', '1/4', '1/2', '3/4', '1', '2', '3', '3/10']))}")
                 else:
-                    lines.append(f"attr minvoters {rng.choice([0, 1, 1, 2, 3])}")
+                    lines.append(f"attr minvoters {self._carried(rng, str(rng.choice([0, 1, 1, 2, 3])), 0.3)}")
             elif x < 0.52 and names:
                 i = rng.randrange(len(names))
                 lines.append(f"ldel {i}")
@@ -539,6 +726,8 @@ class C06(Prop):
                 for _i in range(k):
                     kk = rng.choice(bias)
                     c = rng.choice(CF) if rng.random() < 0.6 else "none"
+                    if rng.random() < 0.04:
+                        c = rng.choice(FAULT_CONF)
                     w = None if rng.random() < 0.8 else Fraction(rng.choice(W))
                     r = None if rng.random() < 0.9 else Fraction(rng.choice(REL))
                     ballot.append((kk, w, r, c))
@@ -651,11 +840,55 @@ class C06(Prop):
         spell_cases = [{"lines": ["cfg majority none 0"] + ["vote U:1:1:none"] * n_forms
                         + ["cfg weighted none 1"] + ["vote U:2:1:1 P:1:1:1/2 B:1:1:1/2"] * n_forms,
                         "note": "exhaustive action spellings"}]
-        for cf in ("none", "bad", "inf", "-inf", "nan", "1", "1/2", "0", "2", "-1/2"):
+        for cf in ("none", "bad", "inf", "-inf", "nan", "1", "1/2", "0", "2", "-1/2") + FAULT_CONF:
             spell_cases.append({"lines": ["cfg confidence none 1"] + [f"vote P:1:1:{cf} P:1/2:1:1/2 B:1:1:1/2"] * 21
                                 + ["cfg bayesian none 1"] + [f"vote B:1:1:{cf} P:1:1:1"] * 7,
                                 "note": "exhaustive payload forms"})
-        return [{"name": "callbacks: none / well-behaved / raising on each side x constructor argument or attribute x "
+        # a voter whose answer fails at each point of the per-voter step (before there is an answer: every X mode; while
+        # the confidence is read; while the payload is rendered) x every strategy and the emergency quorum x the voter
+        # alone / next to a block / between a permit and a block, as PERMIT and as BLOCK answer; then once more
+        fault_cases = []
+        for c in [f"cfg {s_} none 1" for s_ in STRATS] + ["cfg emergency none 1", "cfg threshold 1 0", "cfg majority none 0"]:
+            lines = [c]
+            for cf in FAILED_CONF:
+                for k in "PB":
+                    lines += [f"vote {k}:1:1:{cf}", f"vote {k}:1:1:{cf} B:1:1:1", f"vote P:1:1:1 {k}:2:1:{cf} B:1:1:1",
+                              f"vote P:1:1:1 {k}:2:1:{cf} B:1:1:1"]
+            lines += ["vote X:1:1:1"] * 6 + ["vote P:1:1:1 X:2:1:1 B:1:1:1"] * 6
+            fault_cases.append({"lines": lines, "note": "exhaustive late faults"})
+        # the number that configures the vote, carried by every legal numeric type that can hold it, x every count
+        # profile of <= 7 voters (count strategy and emergency quorum: shares, counts, fractional counts; 0 is falsy in
+        # every type) and the ratio strategies on dyadic thresholds; min_voters likewise
+        carrier_cases = []
+        cc = []
+        for (head, vals) in (("cfg threshold {} 1", ["3/10", "1/2", "2/3", "9/10", "0", "1", "2", "5/2", "3"]),
+                             ("cfg emergency {} 1", ["3/10", "1/2", "2/3", "1", "0"]),
+                             ("cfg majority {} 1", ["1/4", "3/4", "1", "0"]), ("cfg supermajority {} 1", ["1/2", "0"]),
+                             ("cfg weighted {} 1", ["1/4", "1"]), ("cfg confidence {} 1", ["3/4"]), ("cfg bayesian {} 1", ["1/4"])):
+            for v in vals:
+                tags = [t for t in CARRIER_TAGS if carrier_ok(Fraction(v), t)]
+                if tier == "quick":                     # exact carriers always, the others in turn
+                    tags = [t for t in tags if t in ("F", "D")][:1] + [t for t in tags if t not in ("F", "D")][len(cc) % 2::2]
+                cc += [head.format(f"{v}@{t}") for t in tags]
+        cc += ["cfg majority none 2@F", "cfg threshold none 1@b", "cfg unanimous none 3@fs", "cfg weighted none 2@is"]
+        for c in cc:
+            lines = [c]
+            for tot in range(0, 8):
+                for p_ in range(0, tot + 1):
+                    for idle in (0, 1):
+                        if p_ + idle > tot or (idle and tot % 2):
+                            continue
+                        ballot = ([("P", "1", "1", "none")] * p_ + [("B", "1", "1", "none")] * (tot - p_ - idle)
+                                  + [("U", "1", "1", "none")][:idle])
+                        lines.append(self.vote_line(ballot))
+            if not self._risky(lines):
+                carrier_cases.append({"lines": lines, "note": "exhaustive numeric carriers"})
+        return [{"name": "a voter whose answer fails at each point of the per-voter step (no answer / unreadable confidence / "
+                         "unrenderable payload) x 7 strategies + emergency quorum x alone, next to a block, between a permit "
+                         "and a block", "cases": fault_cases},
+                {"name": "thresholds and min_voters carried by int / bool / Fraction / Decimal / float subclass / int subclass "
+                         "x all (permit, block, idle) count profiles of <= 7 voters", "cases": carrier_cases},
+                {"name": "callbacks: none / well-behaved / raising on each side x constructor argument or attribute x "
                          "PERMIT / BLOCK / gated vote", "cases": cb_cases},
                 {"name": f"every non-voting action spelling ({len(OTHER_ACTIONS)}) and every payload form of the stub "
                          "(absent / non-numeric / numeric as float, string, padded string, int, bool / inf / -inf / nan / "
@@ -701,9 +934,9 @@ class C06(Prop):
         for i, (prof, (k, w, r, c)) in enumerate(zip(q.colony, ballot)):
             prof.agent.script.append((k, c, i + salt))
             if w is not None:
-                prof.weight = float(w)
+                prof.weight = carry(w)
             if r is not None:
-                prof.reliability_score = float(r)
+                prof.reliability_score = carry(r)
             resolved.append((k, Fraction(prof.weight), Fraction(prof.reliability_score), c))
         return resolved
 
@@ -749,6 +982,8 @@ class C06(Prop):
             if not rec:
                 return "raise:CallbackError", None
             raised, r = True, rec[-1][1]
+        except ZeroDivisionError:                       # (decimal.DivisionByZero is one)
+            return "raise:ZeroDivisionError", None
         except Exception as e:
             return f"raise:{type(e).__name__}", None
         V = self.m.VotingStrategy
@@ -833,8 +1068,8 @@ class C06(Prop):
                     o = objs.get(cur) or fresh_obj()
                     obs.append("ok")
                 elif t[0] == "cfg" and len(t) == 4 and (t[1] in STRATS or t[1] == "emergency"):
-                    cu = None if t[2] == "none" else float(Fraction(t[2]))
-                    o = fresh_obj(("threshold", cu, 1, True) if t[1] == "emergency" else (t[1], cu, int(t[3]), False))
+                    cu = None if t[2] == "none" else carry(Num(t[2]))
+                    o = fresh_obj(("threshold", cu, 1, True) if t[1] == "emergency" else (t[1], cu, carry_count(t[3]), False))
                     obs.append("ok")
                 elif t[0] == "cb" and len(t) == 3 and t[1] in self.CB_KEYS and t[2] in ("none", "ok", "raise"):
                     f = None if t[2] == "none" else self._recorder(o["rec"], t[1], t[2])
@@ -857,17 +1092,17 @@ class C06(Prop):
                         ensure(int(t[1]))
                         obs.append("ok")
                 elif t[0] == "setstrat" and len(t) == 3 and t[1] in STRATS:
-                    cu = None if t[2] == "none" else float(Fraction(t[2]))
+                    cu = None if t[2] == "none" else carry(Num(t[2]))
                     with contextlib.redirect_stdout(io.StringIO()):
                         ensure().set_strategy(self.m.VotingStrategy(t[1]), cu)
                     obs.append("ok")
                 elif t[0] == "add" and len(t) == 3:
-                    name, w = unhexs(t[1]), float(Fraction(t[2]))
+                    name, w = unhexs(t[1]), carry(Num(t[2]))
                     with contextlib.redirect_stdout(io.StringIO()):
                         ensure().add_agent(name, weight=w)
                     obs.append(self._colony_obs(o["q"]))
                 elif t[0] == "addsame" and len(t) == 3:
-                    i, w = int(t[1]), float(Fraction(t[2]))
+                    i, w = int(t[1]), carry(Num(t[2]))
                     if q is None or not (0 <= i < len(q.colony)):
                         obs.append("bad-op")
                     else:                                # the same agent object registered a second time
@@ -880,16 +1115,16 @@ class C06(Prop):
                         ok = ensure().remove_agent(unhexs(t[1]))
                     obs.append(show_bool(ok) + " " + self._colony_obs(o["q"]))
                 elif t[0] == "setw" and len(t) == 3:
-                    ok = ensure().set_agent_weight(unhexs(t[1]), float(Fraction(t[2])))
+                    ok = ensure().set_agent_weight(unhexs(t[1]), carry(Num(t[2])))
                     obs.append(show_bool(ok) + " " + self._colony_obs(o["q"]))
                 elif t[0] == "attr" and len(t) == 3 and t[1] in ("strategy", "threshold", "minvoters"):
                     # direct assignment of a public attribute the vote reads (no setter)
                     if t[1] == "strategy":
                         ensure().strategy = self.m.VotingStrategy(t[2])
                     elif t[1] == "threshold":
-                        ensure().custom_threshold = None if t[2] == "none" else float(Fraction(t[2]))
+                        ensure().custom_threshold = None if t[2] == "none" else carry(Num(t[2]))
                     else:
-                        ensure().min_voters = int(t[2])
+                        ensure().min_voters = carry_count(t[2])
                     obs.append("ok")
                 elif t[0] == "ldel" and len(t) == 2:
                     if q is None or not (0 <= int(t[1]) < len(q.colony)):
@@ -898,7 +1133,7 @@ class C06(Prop):
                         del q.colony[int(t[1])]
                         obs.append(self._colony_obs(q))
                 elif t[0] == "linsert" and len(t) == 4:
-                    i, name, w = int(t[1]), unhexs(t[2]), float(Fraction(t[3]))
+                    i, name, w = int(t[1]), unhexs(t[2]), carry(Num(t[3]))
                     ensure().colony.insert(i, self.m.AgentProfile(agent=Stub(name), weight=w))
                     obs.append(self._colony_obs(o["q"]))
                 elif t[0] == "pset" and len(t) == 4:
@@ -906,9 +1141,9 @@ class C06(Prop):
                         obs.append("bad-op")
                     else:
                         if t[2] != "_":
-                            q.colony[int(t[1])].weight = float(Fraction(t[2]))
+                            q.colony[int(t[1])].weight = carry(Num(t[2]))
                         if t[3] != "_":
-                            q.colony[int(t[1])].reliability_score = float(Fraction(t[3]))
+                            q.colony[int(t[1])].reliability_score = carry(Num(t[3]))
                         obs.append(self._colony_obs(q))
                 elif t[0] == "relupd" and len(t) == 3:
                     ensure().update_reliability(unhexs(t[1]), t[2] in ("1", "true", "True"))
@@ -939,7 +1174,7 @@ class C06(Prop):
     # --- oracle: the property text on what the real code did --------------------------------------------------
     def _fresh(self, st, n, budget=1000):
         """a new quorum object in configuration state `st` with n (real) agents"""
-        cu = None if st[1] is None else float(st[1])
+        cu = None if st[1] is None else carry(st[1])
         if st[3]:                                          # an EmergencyQuorum object (possibly re-configured)
             q = self._make("threshold", None if st[3] == "default" else cu, 1, n, True, budget)
             if st[3] == "changed":
@@ -1059,7 +1294,7 @@ class C06(Prop):
             # abstaining / deferring / failed voters are no support: without them the outcome is not more favourable
             # (the count strategy may need fewer permits for a smaller colony, so only PERMIT -> PERMIT is demanded
             # in that direction; here: giving them huge weight and confidence must not create a PERMIT)
-            b2 = [(v[0], Fraction(2), Fraction(1), v[3] if v[3] in ("bad", "nan") else "1")
+            b2 = [(v[0], Fraction(2), Fraction(1), v[3] if v[3] in FAILED_CONF else "1")
                   if cast(v)[0] in ("abstain", "defer") else v for v in ballot]
             r2 = self._ask(st, b2)
             if r2 is not None and r2[0]:
@@ -1115,7 +1350,7 @@ class C06(Prop):
             if c not in SPECIAL_CONF and Fraction(c) < 1:
                 c2 = str(min(Fraction(1), Fraction(c) + Fraction(1, 4)))
                 out.append(("raise_permit_confidence_monotone", ballot[:i] + [(k, w, r, c2)] + ballot[i + 1:]))
-            if c not in ("none", "bad", "nan", "inf"):    # … and raised beyond every bound
+            if c not in ("none", "inf") + FAILED_CONF:   # … and raised beyond every bound
                 out.append(("raise_permit_confidence_monotone",
                             ballot[:i] + [(k, w, r, ["inf", "2", "inf"][salt % 3])] + ballot[i + 1:]))
         if idle:
